@@ -91,23 +91,31 @@ def run(eng: Engine, ck: Check):
     m = eng.func(NET, 'ExpectedResponse.matches')
     ck.visited(m)
     falses = [n for n in walk_local(m.node) if isinstance(n, ast.Return) and const(n.value) is False]
-    conds = []
-    for r in falses:
-        conds.append([(unparse(e), pol) for e, pol, _ in eng.guards_at(m, r)])
-    flat = [x for cs in conds for x in cs]
+    conn_p, resp_p = [p_ for p_ in m.params if p_ != 'self'][:2]
+    flat = [(e, pol, r) for r in falses for e, pol, _ in eng.guards_at(m, r)]
 
-    def has(sub_a, sub_b):
-        return any(pol and sub_a in s and sub_b in s and '!=' in s for s, pol in flat) or \
-            any((not pol) and sub_a in s and sub_b in s and '==' in s for s, pol in flat)
-    ck.ob('R-C12-MATCH', m, m.node, 'matches() rejects a message from another connection class', has('connection.__class__', 'self.connection_class'), str(flat)[:200],
-          construct='matches connection class')
-    ck.ob('R-C12-MATCH', m, m.node, 'matches() rejects another message class', has('response.__class__', 'self.message_class'), '', construct='matches message class')
-    ck.ob('R-C12-MATCH', m, m.node, 'matches() rejects a message from another peer', has('connection.username', 'self.peer'), '', construct='matches peer')
-    ck.ob('R-C12-MATCH', m, m.node, 'matches() rejects a message whose field differs from the expected value',
-          any('getattr(response, fname' in s and 'expected_value' in s and ((pol and '!=' in s) or ((not pol) and '==' in s)) for s, pol in flat),
-          str(flat)[:300], construct='matches fields')
+    def rejects_unequal(lhs: str, rhs: str, within=None) -> bool:
+        """some `return False` is reached exactly when lhs != rhs (guard atom lhs == rhs false / lhs != rhs true)"""
+        eq = pat.compile_pattern(f'{lhs} == {rhs}')[0]
+        ne = pat.compile_pattern(f'{lhs} != {rhs}')[0]
+        return any(((not pol) and pat.match(e, eq) is not None) or (pol and pat.match(e, ne) is not None)
+                   for e, pol, r in flat if within is None or within in list(ancestors(r)))
+    ck.ob('R-C12-MATCH', m, m.node, 'matches() rejects a message from another connection class',
+          rejects_unequal(f'{conn_p}.__class__', 'self.connection_class') or rejects_unequal(f'type({conn_p})', 'self.connection_class'),
+          str([(unparse(e), pol) for e, pol, _ in flat])[:200], construct='matches connection class')
+    ck.ob('R-C12-MATCH', m, m.node, 'matches() rejects another message class',
+          rejects_unequal(f'{resp_p}.__class__', 'self.message_class') or rejects_unequal(f'type({resp_p})', 'self.message_class'), '', construct='matches message class')
+    ck.ob('R-C12-MATCH', m, m.node, 'matches() rejects a message from another peer', rejects_unequal(f'{conn_p}.username', 'self.peer'), '', construct='matches peer')
+    floops = [n for n in walk_local(m.node) if isinstance(n, ast.For) and pat.match(n.iter, pat.compile_pattern('self.fields.items()')[0]) is not None
+              and isinstance(n.target, ast.Tuple) and len(n.target.elts) == 2]
+    ok = False
+    if len(floops) == 1:
+        kx, vx = (unparse(x) for x in floops[0].target.elts)
+        ok = rejects_unequal(f'getattr({resp_p}, {kx}, $$)', vx, within=floops[0])
+    ck.ob('R-C12-MATCH', m, m.node, 'matches() rejects a message whose field differs from the expected value', ok,
+          str([(unparse(e), pol) for e, pol, _ in flat])[:300], construct='matches fields')
     loops = [n for n in walk_local(m.node) if isinstance(n, ast.For)]
-    ok = len(loops) == 1 and 'self.fields.items()' in unparse(loops[0].iter)
+    ok = len(loops) == 1 and loops == floops
     ck.ob('R-C12-MATCH', m, m.node, 'matches() iterates all expected fields', ok, '', construct='matches iterates fields')
     trues = [n for n in walk_local(m.node) if isinstance(n, ast.Return) and const(n.value) is True]
     ok = len(trues) == 1 and not any(isinstance(a, (ast.For, ast.If)) for a in ancestors(trues[0]) if a is not m.node)
@@ -126,7 +134,9 @@ def run(eng: Engine, ck: Check):
                             protected_by_try_catching(eng, rrf, rem[0], 'ValueError') is not None)
     ck.ob('R-C12-REMOVE', rrf, rrf.node, '_remove_response_future removes the waiter and tolerates one that is already gone', ok, '', construct='remover tolerant')
     acq = eng.mutations_of_attr('_expected_response_futures', ['append'])
-    ck.floor('R-C12-REMOVE', len(acq), 3)
+    # registration sites: direct appends plus calls of the functions that append (a refactoring may route every creator through one of them)
+    reg_calls = [(c_, x_) for f_, _a in acq for c_, x_, how_ in eng.res.callers_of(f_) if how_ == 'call' and f_.name.startswith('register')]
+    ck.floor('R-C12-REMOVE', len(acq) + len(reg_calls), 3)
     for f, a in acq:
         ck.visited(f)
         fut = unparse(a.args[0])
